@@ -67,8 +67,9 @@ CHECKS = {
                 text="perform_fkm_nonlinear_assessment (about 1 s per call) is run for every ordered selection of load ratios (incl. equal ratios, near-endurance ratios, "
                      "uniform and per-point gradient) and compared point by point with single-point calls (rtol 1e-9, verdicts ==); for every single insertion of a repeated "
                      "value or midpoint into every cyclic gap (junction on both sides) of every template; along lines of load scale x R_z x P_A (lifetime never increases, "
-                     "verdict never turns infinite, N_10 <= N_50 <= N_90). 3 (thorough 6) templates x 1 (4) parameter sets.",
-                note="Small but complete space (151 / 1700 cases); rainflow_ext rebuilt from the working tree; a midpoint prepended outside [0, s0] is a reversal of pass 1 and is excluded.",
+                     "verdict never turns infinite, N_10 <= N_50 <= N_90). 3 (thorough 6) templates x 1 (4) parameter sets; batch independence additionally for all alternating "
+                     "4-sample (thorough 5) sequences over six load levels, with node ids that do not ascend, and after another batch in the same process.",
+                note="Small but complete space (606 quick cases); rainflow_ext rebuilt from the working tree; a midpoint prepended outside [0, s0] is a reversal of pass 1 and is excluded.",
                 ref="3 C10"),
     "C11": dict(cat="exploration", tech="exhaustive enumeration of all cycle vectors over {0,1,5000}^4 (5 classes thorough) x class limits x curves x load levels, metamorphic clauses",
                 text="Every cycle vector (every pattern of empty classes at top, bottom and in between) on regular, irregular and five-class limits, as LoadHistogram, LoadCollective "
@@ -118,12 +119,13 @@ CHECKS = {
                 text="Every synthetic series of the menu (k x level subsets of {250,300,350,400} x repetitions x jitter patterns x 6-7 run-out configurations) is analysed by the real "
                      "Elementary / Probit / MaxLikeInf / MaxLikeFull under load scaling, cycle scaling, reversed / rotated / swapped / all (n <= 4-5) row orders and carried labels; "
                      "closed-form analyzers at rtol 1e-9, likelihood maximisers by reference log-likelihood (1e-3) and 5 % on well-determined parameters; exact-line recovery "
-                     "(k_1, TN = TS = 1), zone partition at the reported transition, likelihood not below the elementary start.",
+                     "(k_1, TN = TS = 1), zone partition at the reported transition, likelihood not below the elementary start. Histories over analyzer objects in one process and "
+                     "on one kept FatigueData object (several analyzers, transition moved, asked again) must give what fresh objects give.",
                 note="Parameters in likelihood-flat directions are counted, not judged; ND under load scaling is not in the property; MaxLike runs are slow, the family is smaller.",
                 ref="3 C18"),
     "C19": dict(cat="exploration", tech="exhaustive enumeration of small meshes x node/element numberings x row orders x linear fields; all small incidence structures x value assignments vs union-find",
                 text="Gradient / Gradient3D on hex and 5-/6-tet blocks (1..2)^3, 3 perturbations, 6 node x 3-6 element numberings (offset, gaps, reversed, deranged, zero-based), "
-                     "row orders incl. fully shuffled, linear fields (64-field sweep on plain configurations); mapper identity / linear reproduction; Surface3D on blocks up to 3x3x3; "
+                     "row orders incl. fully shuffled, linear fields (64-field sweep on plain configurations), cell sizes 2^-10 / 2^10, kept accessor asked again after the nodes moved; mapper identity / linear reproduction; Surface3D on blocks up to 3x3x3; "
                      "HotSpot labels for all incidence structures of <= 2 (thorough 3) elements x all value assignments in {1,2,3}^rows x 3 thresholds vs a union-find reference.",
                 note="Quadratic elements, mixed hex+tet and unstructured meshes are not enumerated.",
                 ref="3 C19"),
